@@ -42,8 +42,10 @@ def small_roots(run, n, maxmen=12):
     rng = run.rng
     small = [e for e in P["pool"] if sum(c.isalpha() for c in e["fen"].split(" ")[0]) <= maxmen]
     rng.shuffle(small)
-    big = [e for e in P["pool"] if e["cls"] in ("startpos", "suite", "template")]
-    rng.shuffle(big)
+    big = [e for e in P["pool"] if e["cls"] in ("extreme", "many")] + [e for e in P["pool"] if e["cls"] in ("startpos", "suite", "template")]
+    head, tail = big[:8], big[8:]
+    rng.shuffle(tail)
+    big = head + tail
     return small[: n - n // 5] + big[: n // 5]
 
 
